@@ -57,6 +57,7 @@ class CustomFieldsGenerator:
         custom_scalars: Optional[Dict[str, ScalarData]] = None,
         plugin_manager: Optional[PluginManager] = None,
         input_types_module_name: str = "input_types",
+        enums_module_name: str = "enums",
     ) -> None:
         self.schema = schema
         self.convert_to_snake_case = convert_to_snake_case
@@ -80,6 +81,7 @@ class CustomFieldsGenerator:
             self.convert_to_snake_case,
             self.plugin_manager,
             input_types_module_name=input_types_module_name,
+            enums_module_name=enums_module_name,
         )
         self._class_defs: List[ast.ClassDef] = self._parse_object_type_definitions(
             TypeCollector(self.schema).collect()
